@@ -900,3 +900,340 @@ pub fn fmt_of(mask: u8) -> Fmt {
         F64
     }
 }
+
+// ---------------------------------------------------------------------------
+// BOUNDARY-LIGHT on a chosen list of binades (C07: the ends of the range)
+// ---------------------------------------------------------------------------
+pub fn boundary_light_binades(f: Fmt, binades: &[u64], extra_patterns: usize, seed: u64, placements: u8) -> Vec<Job> {
+    let pats = std::sync::Arc::new(patterns(f, extra_patterns, seed));
+    let mut jobs: Vec<Job> = Vec::new();
+    for &be in binades {
+        let pats = pats.clone();
+        jobs.push(Box::new(move |emit: &mut Emit| {
+            for &p in pats.iter() {
+                let a = (be << f.mant_bits()) | p;
+                if a >= f.inf_bits() {
+                    continue;
+                }
+                boundary_light_pair(emit, f, a, placements);
+            }
+        }));
+    }
+    jobs
+}
+
+// ---------------------------------------------------------------------------
+// LONG (C04): digit strings of length 10^4 .. 10^6
+// ---------------------------------------------------------------------------
+pub fn long_family(thorough: bool) -> Vec<Job> {
+    let mut lens = vec![10_000usize, 100_000];
+    if thorough {
+        lens.push(1_000_000);
+    }
+    let mut jobs: Vec<Job> = Vec::new();
+    for k in lens {
+        for shape in 0..5usize {
+            jobs.push(Box::new(move |emit: &mut Emit| {
+                let digits: Vec<u8> = match shape {
+                    0 => vec![b'9'; k],
+                    1 => {
+                        let mut v = vec![b'0'; k];
+                        v[0] = b'1';
+                        v
+                    },
+                    2 => (0..k).map(|i| if i % 2 == 0 { b'1' } else { b'2' }).collect(),
+                    3 => {
+                        let mut v = vec![b'0'; k];
+                        v[0] = b'1';
+                        v[k - 1] = b'1';
+                        v
+                    },
+                    _ => (0..k).map(|i| b'1' + (i % 9) as u8).collect(),
+                };
+                let kk = k as i64;
+                let exps: Vec<i64> = vec![
+                    i32::MIN as i64, -kk - 400, -kk - 308, -kk - 1, -kk, -kk + 1, -kk + 308, -kk + 309, -kk / 2, -1, 0, 1, 308, kk, i32::MAX as i64,
+                ];
+                for &e in &exps {
+                    if let Some(ex) = clamp_i32(e) {
+                        // all-integer
+                        emit(&Case { int: &digits, frac: b"", exp: ex, fam: "LONG", fmts: MBOTH, expect: None });
+                    }
+                    // all-fraction: value = 0.digits * 10^e'
+                    if digits[k - 1] != b'0' {
+                        if let Some(ex) = clamp_i32(e + kk) {
+                            emit(&Case { int: b"", frac: &digits, exp: ex, fam: "LONG", fmts: MBOTH, expect: None });
+                        }
+                        // split in the middle
+                        if let Some(ex) = clamp_i32(e + kk / 2) {
+                            let p = k - k / 2;
+                            emit(&Case { int: &digits[..p], frac: &digits[p..], exp: ex, fam: "LONG", fmts: MBOTH, expect: None });
+                        }
+                    }
+                }
+                // leading fraction zeros then one digit
+                let mut z = vec![b'0'; k];
+                z.push(b'7');
+                for &e in &[i32::MIN as i64, 0, kk - 330, kk - 45, kk, kk + 1, kk + 38, kk + 308, kk + 309, i32::MAX as i64] {
+                    if let Some(ex) = clamp_i32(e) {
+                        emit(&Case { int: b"", frac: &z, exp: ex, fam: "LONG", fmts: MBOTH, expect: None });
+                    }
+                }
+            }));
+        }
+    }
+    jobs
+}
+
+// ---------------------------------------------------------------------------
+// Groups: chains (C09) and re-spellings (C10).
+// The first case of a group carries a family label ending in '^'.
+// ---------------------------------------------------------------------------
+
+/// Chain elements between consecutive integers `w` and `w+1` (exclusive of `w+1`), ascending:
+/// w, w + 10^-pad-ish, w.5, w.5 + far digit, w.99..9
+fn emit_between(emit: &mut Emit, d: &[u8], q: i32, first: bool) {
+    let start = if first { "CHAIN-w^" } else { "CHAIN-w" };
+    emit(&Case { int: d, frac: b"", exp: q, fam: start, fmts: MBOTH, expect: None });
+    let pad = if d.len() < 24 { 24 - d.len() } else { 1 };
+    let mut f = vec![b'0'; pad];
+    f.push(b'1');
+    emit(&Case { int: d, frac: &f, exp: q, fam: "CHAIN-w+tiny", fmts: MBOTH, expect: None });
+    emit(&Case { int: d, frac: b"5", exp: q, fam: "CHAIN-w.5", fmts: MBOTH, expect: None });
+    let mut f = vec![b'0'; pad + 1];
+    f[0] = b'5';
+    f.push(b'1');
+    emit(&Case { int: d, frac: &f, exp: q, fam: "CHAIN-w.5+tiny", fmts: MBOTH, expect: None });
+    let f = vec![b'9'; pad + 2];
+    emit(&Case { int: d, frac: &f, exp: q, fam: "CHAIN-w.99", fmts: MBOTH, expect: None });
+}
+
+/// (1) for every q: the whole sorted SEAM significand list with in-between elements where w+1 is the next element.
+pub fn chains_w(q_lo: i32, q_hi: i32) -> Vec<Job> {
+    let ws = std::sync::Arc::new(seam_significands());
+    let mut jobs: Vec<Job> = Vec::new();
+    for q in q_lo..=q_hi {
+        let ws = ws.clone();
+        jobs.push(Box::new(move |emit: &mut Emit| {
+            for (i, &w) in ws.iter().enumerate() {
+                let d = dec_u128(w);
+                let consecutive = i + 1 < ws.len() && ws[i + 1] == w + 1;
+                if consecutive || i + 1 < ws.len() {
+                    // in-between elements are < w+1 <= next element in either case
+                    emit_between(emit, &d, q, i == 0);
+                } else {
+                    emit(&Case { int: &d, frac: b"", exp: q, fam: "CHAIN-w", fmts: MBOTH, expect: None });
+                }
+            }
+        }));
+    }
+    jobs
+}
+
+/// (2) same digits, consecutive exponents.
+pub fn chains_q(q_lo: i32, q_hi: i32) -> Vec<Job> {
+    let ws = seam_significands();
+    let mut jobs: Vec<Job> = Vec::new();
+    for chunk in ws.chunks(16) {
+        let chunk = chunk.to_vec();
+        jobs.push(Box::new(move |emit: &mut Emit| {
+            for &w in &chunk {
+                let d = dec_u128(w);
+                for q in q_lo..=q_hi {
+                    emit(&Case { int: &d, frac: b"", exp: q, fam: if q == q_lo { "CHAIN-q^" } else { "CHAIN-q" }, fmts: MBOTH, expect: None });
+                }
+                // the same with a truncated 25-digit spelling
+                let mut f = vec![b'0'; 24];
+                f.push(b'1');
+                for q in q_lo..=q_hi {
+                    emit(&Case { int: &d, frac: &f, exp: q, fam: if q == q_lo { "CHAIN-q^" } else { "CHAIN-q" }, fmts: MBOTH, expect: None });
+                }
+            }
+        }));
+    }
+    jobs
+}
+
+/// (3) runs of consecutive floats: exact(a), below(H_a), H_a, above(H_a), exact(a+1), ...
+pub fn chains_floats(f: Fmt, run: u64, extra_patterns: usize, seed: u64, binade_stride: u64) -> Vec<Job> {
+    let pats = std::sync::Arc::new(patterns(f, extra_patterns, seed));
+    let mask = fmt_mask(f);
+    let mut jobs: Vec<Job> = Vec::new();
+    let mut be = 0;
+    while be < f.binades() {
+        let pats = pats.clone();
+        jobs.push(Box::new(move |emit: &mut Emit| {
+            for &p in pats.iter() {
+                let a0 = (be << f.mant_bits()) | p;
+                let mut first = true;
+                for a in a0..a0 + run {
+                    if a >= f.inf_bits() {
+                        break;
+                    }
+                    let (m, e) = f.decode(a);
+                    let (ad, ae) = expand(m, e);
+                    emit_placements(emit, &ad, ae, PL_SCI, if first { "CHAIN-f^" } else { "CHAIN-f" }, mask, None);
+                    if ad.len() <= 1 {
+                        // PL_SCI skips one-digit strings: emit as integer instead
+                        emit_placements(emit, &ad, ae, PL_INT, if first { "CHAIN-f^" } else { "CHAIN-f" }, mask, None);
+                    }
+                    first = false;
+                    let (k, j) = f.upper_boundary(a);
+                    let (hd, he) = expand_full(k, j);
+                    let mut v = bump_last(&hd, false);
+                    v.extend_from_slice(&[b'9'; 26]);
+                    emit_placements(emit, &v, he - 26, PL_SCI, "CHAIN-f", mask, None);
+                    let (td, te) = strip0(&hd, he);
+                    emit_placements(emit, &td, te, if td.len() > 1 { PL_SCI } else { PL_INT }, "CHAIN-f", mask, None);
+                    let mut v = hd.clone();
+                    v.extend_from_slice(&[b'0'; 25]);
+                    v.push(b'1');
+                    emit_placements(emit, &v, he - 26, PL_SCI, "CHAIN-f", mask, None);
+                }
+            }
+        }));
+        be += binade_stride;
+    }
+    jobs
+}
+
+/// (4) far-digit chains: prefix . 0^j . d for d = 0..9, prefix = midpoints of named pairs.
+pub fn chains_far(f: Fmt) -> Vec<Job> {
+    let mask = fmt_mask(f);
+    let pairs = named_pairs(f);
+    vec![Box::new(move |emit: &mut Emit| {
+        for &a in &pairs {
+            if a >= f.inf_bits() {
+                continue;
+            }
+            let (k, j) = f.upper_boundary(a);
+            let (hd, he) = expand_full(k, j);
+            for jz in [0usize, 1, 18, 19, 20, 40, 767, 768, 769, 800, 3000] {
+                for d in 0..=9u8 {
+                    let mut v = hd.clone();
+                    v.resize(hd.len() + jz, b'0');
+                    v.push(b'0' + d);
+                    let n = v.len();
+                    if let Some(ex) = clamp_i32(he - jz as i64 - 1 + (n as i64 - 1)) {
+                        emit(&Case { int: &v[..1], frac: &v[1..], exp: ex, fam: if d == 0 { "CHAIN-far^" } else { "CHAIN-far" }, fmts: mask, expect: None });
+                    }
+                }
+            }
+        }
+    })]
+}
+
+/// Every spelling of `digits * 10^exp10` (C10): every split position with compensating exponent,
+/// leading fraction zeros when the integer part is empty, 0..=40 appended fraction zeros.
+pub fn respell(emit: &mut Emit, digits: &[u8], exp10: i64, fmts: u8, appended: usize) {
+    let n = digits.len();
+    let mut first = true;
+    let mut lab = |first: &mut bool| -> &'static str {
+        if *first {
+            *first = false;
+            "RESPELL^"
+        } else {
+            "RESPELL"
+        }
+    };
+    let mut buf: Vec<u8> = Vec::new();
+    for p in 0..=n {
+        if let Some(ex) = clamp_i32(exp10 + (n - p) as i64) {
+            emit(&Case { int: &digits[..p], frac: &digits[p..], exp: ex, fam: lab(&mut first), fmts, expect: None });
+        }
+    }
+    for z in [1usize, 2, 19, 20, 40, 400] {
+        buf.clear();
+        buf.resize(z, b'0');
+        buf.extend_from_slice(digits);
+        if let Some(ex) = clamp_i32(exp10 + (n + z) as i64) {
+            emit(&Case { int: b"", frac: &buf, exp: ex, fam: lab(&mut first), fmts, expect: None });
+        }
+    }
+    // appended fraction zeros on three splits: integer-only, after the first digit, fraction-only
+    for p in [n, 1.min(n), 0] {
+        for z in 1..=appended {
+            buf.clear();
+            buf.extend_from_slice(&digits[p..]);
+            buf.resize(n - p + z, b'0');
+            if let Some(ex) = clamp_i32(exp10 + (n - p) as i64) {
+                emit(&Case { int: &digits[..p], frac: &buf, exp: ex, fam: lab(&mut first), fmts, expect: None });
+            }
+        }
+    }
+    // trailing integer zeros moved into the exponent
+    for z in [1usize, 2, 19, 20, 40] {
+        buf.clear();
+        buf.extend_from_slice(digits);
+        buf.resize(n + z, b'0');
+        if let Some(ex) = clamp_i32(exp10 - z as i64) {
+            emit(&Case { int: &buf, frac: b"", exp: ex, fam: lab(&mut first), fmts, expect: None });
+        }
+    }
+}
+
+pub fn respell_family(seed: u64, thorough: bool) -> Vec<Job> {
+    let mut jobs: Vec<Job> = Vec::new();
+    // (a) every digit string with <= 3 (4 thorough) digits, exponent windows
+    let nd = if thorough { 4 } else { 3 };
+    let mut exps: Vec<i64> = Vec::new();
+    for c in [-345i64, -324, -308, -46, -22, 0, 15, 22, 38, 300] {
+        for d in 0..6 {
+            exps.push(c + d);
+        }
+    }
+    for e in exps {
+        jobs.push(Box::new(move |emit: &mut Emit| {
+            for d in 1..10u64.pow(nd) {
+                if d % 10 == 0 {
+                    continue;
+                }
+                respell(emit, &dec_u128(d as u128), e, MBOTH, 40);
+            }
+        }));
+    }
+    // (b) SEAM significands at every 5th exponent (rotated by seed)
+    let ws = std::sync::Arc::new(seam_significands());
+    let mut q = -365 + (seed % 5) as i64;
+    while q <= 330 {
+        let ws = ws.clone();
+        jobs.push(Box::new(move |emit: &mut Emit| {
+            for &w in ws.iter() {
+                let d = dec_u128(w);
+                let (d, e) = strip0(&d, q);
+                respell(emit, &d, e, MBOTH, 40);
+                if d.len() == 19 {
+                    // truncated bases
+                    let mut t = d.clone();
+                    t.extend_from_slice(b"00000000000000000001");
+                    respell(emit, &t, e - 20, MBOTH, 3);
+                }
+            }
+        }));
+        q += 5;
+    }
+    // (c) long bases: midpoints and exact values of the named pairs, both formats
+    for f in [F64, F32] {
+        let mask = fmt_mask(f);
+        for a in named_pairs(f) {
+            if a >= f.inf_bits() {
+                continue;
+            }
+            jobs.push(Box::new(move |emit: &mut Emit| {
+                let (k, j) = f.upper_boundary(a);
+                let (hd, he) = expand(k, j);
+                respell(emit, &hd, he, mask, 3);
+                let mut v = hd.clone();
+                v.extend_from_slice(&[b'0'; 30]);
+                v.push(b'1');
+                respell(emit, &v, he - 31, mask, 3);
+                let (m, e) = f.decode(a);
+                let (ad, ae) = expand(m, e);
+                if !ad.is_empty() {
+                    respell(emit, &ad, ae, mask, 3);
+                }
+            }));
+        }
+    }
+    jobs
+}
